@@ -35,6 +35,14 @@ CHECKS = {
          "The operations take fuel in the model (they recurse on results); theorems are about terminating calls and fuel sufficiency "
          "is observed, not proved. The SemType-level statement (merge by tag) is checked on generated operands; custom formats and "
          "void/undefined are modelled but outside the proved fragment, as the property states."),
+ "C08": ("Theorems on the runtime trees (all trees/values): literal-set dispatch (AnyOfConstsRuntype) and discriminator dispatch "
+         "(AnyOfDiscriminatedRuntype with the mapping shape the printer emits) accept exactly what the plain union of their members "
+         "accepts; hash256 encoding and hash() are invariant under property/mapping/format order and descriptions; the alias-boundary "
+         "clause is refuted (Props/C13.v). The property itself is decided metamorphically on the implementation: random programs and "
+         "1-3 random meaning-preserving rewrites are both compiled and compared on validate() over type-directed values and on "
+         "hash256().",
+         "The frontend lowering and the printer are not modelled in Coq (their output is observed); rewrites come from the generator's "
+         "AST; hoisting is sharing of identical sub-validators and has no counterpart in the model."),
  "C11": ("Theorem C11_except_known (for every validator tree and named environment without an intersection of two or more "
          "run-time members, every value and fuel): validate{strict} = validate{default} && no_extra; C11_refuted exhibits the "
          "unchanged code's counterexample (A & B of named objects); C11_strict_implies_default holds for all trees. The model "
